@@ -75,6 +75,8 @@ class Path:
             if kind == 'd':
                 c = o.cells.get(base - o.base + 8 * i)
                 v = None if c is None else c[1]
+                if v is UNDEF:
+                    v = None          # a copy of an uninitialised value is reported like a cell that was never written
                 if isinstance(v, Bits):
                     v = v.v
                 if isinstance(v, int) and not isinstance(v, bool):
@@ -82,7 +84,7 @@ class Path:
                 vals.append(v)
             else:
                 c = o.cells.get(base - o.base + (bits // 8) * i)
-                vals.append(None if c is None else c[1])
+                vals.append(None if (c is None or c[1] is UNDEF) else c[1])
         return vals
 
     def addr(self, name):
